@@ -285,7 +285,7 @@ def r184(prog, chk):
     for c in flags:
         for g in conds(prog, ml, c):
             if dparam in T(g.test) and "'LTR'" in T(g.test):
-                flag_tests.add(cfg.node_of(g.test))
+                flag_tests.add(cfg.node_of(g.loc))
     need(flag_tests, f"cannot interpret {ml.short}: flag decision not found")
     for d in cfg.defs_of(dparam):
         if d.kind == "assign":
